@@ -282,8 +282,14 @@ func GenOuterBase(rng *mrand.Rand, publicName string, copied []tlswire.Ext, sess
 // EncodeInner builds EncodedClientHelloInner: empty session id, the run
 // [start,start+n) replaced by one ech_outer_extensions entry, pad zero bytes.
 func EncodeInner(inner *tlswire.ClientHello, start, n, pad int) []byte {
+	return EncodeInnerSID(inner, start, n, pad, nil)
+}
+
+// EncodeInnerSID is EncodeInner for a client that (against section 5.1) leaves a
+// legacy_session_id in the encoded form; the server must still substitute the outer's.
+func EncodeInnerSID(inner *tlswire.ClientHello, start, n, pad int, sid []byte) []byte {
 	enc := inner.Clone()
-	enc.SessionID = nil
+	enc.SessionID = sid
 	if n > 0 {
 		var types []uint16
 		for _, e := range inner.Exts[start : start+n] {
